@@ -17,7 +17,9 @@ func (c04) Generate(r *rand.Rand, t string) []*Case {
 	var out []*Case
 	n := tier(t, 3000, 200000)
 	for i := 0; i < n; i++ {
-		o := SetupOpts{NoCgo: true}
+		// BlankHints: hints NAMED "_" for paths that are referenced nowhere (a quarter of the
+		// entries of the large tables, and 1..3 separate ones in a third of the cases)
+		o := SetupOpts{BlankHints: true}
 		if i%5 == 0 {
 			o.ManyHints = 20 + r.Intn(280) // large, mostly unused hint tables
 		}
